@@ -453,7 +453,7 @@ def rand_cfg(rng, mods, timeout=None):
         for n in rng.sample(["a", "B", "c", "Dd", "e", "_g"], rng.choice([0, 1, 2, 3])):
             kv = []
             if rng.random() < 0.6:
-                kv.append(("class", rng.choice(["cls-" + n, "x" * 70, "users"])))
+                kv.append(("class", rng.choice(["cls-" + n, "cls-" + n, "users", "users", "x" * 70, "y" * 63, "z" * 64, "w" * 65])))
             if rng.random() < 0.4:
                 # near-misses of the accounts the services vouch: prefixes, extensions, case variants
                 kv.append(("account", rng.choice(["*", "acct", "acc", "acctx", "ac*", "?cct", "ACCT", "nomatch", "acct:123", "a\\cct"])))
@@ -905,7 +905,7 @@ def class_scenario(rng, name):
     for n in rng.sample(["a", "B", "c", "Dd", "e", "F0", "_g", "D_x"], rng.choice([1, 2, 2, 3])):
         kv = []
         if rng.random() < 0.7:
-            kv.append(("class", rng.choice(["cls-" + n, "x" * 70, "users"])))
+            kv.append(("class", rng.choice(["cls-" + n, "cls-" + n, "users", "users", "x" * 70, "y" * 63, "z" * 64, "w" * 65])))
         for crit, pool in rng.sample([("account", ACCOUNT_PATS), ("hostname", HOST_PATS), ("username", IDENT_PATS),
                                       ("address", ADDR_PATS), ("xreply_ok", ["login.srv", "drone.srv", "Login.Srv", "nosuch"])],
                                      rng.choice([0, 1, 1, 1, 2])):
@@ -1139,7 +1139,8 @@ def challenge_scenario(rng, name):
         rest = data[k:]
         flow = []
         for _ in range(rng.choice([1, 1, 2])):
-            flow.append(("reply", "X", "login.srv", rng.choice(["MORE challenge", "MORE c2", "AGAIN retry"]), "cur"))
+            flow.append(("reply", "X", "login.srv", rng.choice(["MORE challenge", "MORE c2", "AGAIN retry", "MORE 50%d off %u", "AGAIN 100%% sure",
+                                                                "MORE %s%s%n", "AGAIN " + "q" * rng.choice([900, 1000, 1100])]), "cur"))
             flow.append(("line", "P :" + rng.choice(["response", "+x acct pass2", "-! acct pass"])))
         flow.append(("reply", "X", "login.srv", rng.choice(["OK acct", "OK", "NO bad", "OK acct:1"]), "cur"))
         if rng.random() < 0.4:
@@ -1391,6 +1392,20 @@ def _gen_cases(prop, tier, seed):
             if i % 3 == 2:
                 cases.append(malformed_case(rng, "mal/%d" % i))
                 continue
+            if i % 50 == 13:
+                # texts that are relayed to the other side at and beyond the size of the output buffer:
+                # a service's AGAIN / MORE / NO text, a client's answer to a challenge (seeded change
+                # C08-2 wrote the would-be length of the formatted line)
+                big = lambda: "q" * rng.choice([990, 1000, 1010, 1023, 1024, 1100, 3000])
+                ev = [("C", "1.2.3.4", "1234"), ("line", "P :+x acct pass"),
+                      ("reply", "X", "login.srv", rng.choice(["MORE ", "AGAIN "]) + big(), "cur"),
+                      ("line", "P :" + big()),
+                      ("reply", "X", "login.srv", rng.choice(["NO ", "AGAIN ", "MORE "]) + big(), "cur"),
+                      ("line", "N host.example"), ("line", "u ident"), ("line", "n nick"), ("line", "U user :real name"), ("line", "H")]
+                cfg_ = Cfg(timeout=0, services=[("login.srv", rng.choice(["login", "combined", "login-ipr"]))], rules=[])
+                cases.append(Case("c08/%d/bigtext" % i, header("xquery", cfg_) + render_schedule(rng, {5: ev}) + ["eof"],
+                                  tags={"mods": "xquery"}))
+                continue
             base = scenario(rng, "c08/%d/base" % i, nclients=(rng.choice([6, 8]) if i % 4 == 0 else None))
             # chunking and junk variants are compared on the `in` stream only: no timeouts in between
             # (symbolic routing tags are written out: the byte stream is cut at arbitrary offsets)
@@ -1529,7 +1544,7 @@ def _gen_cases(prop, tier, seed):
                     probe = {cid: client_script(rng, cid, new, mods) for cid in rng.sample([1, 2, 5, 7], 2)}
                     probe = {cid: [e for e in ev if not (e[0] == "reply" and e[4] not in ("cur", "stale"))] for cid, ev in probe.items()}
                     pops = render_schedule(rng, probe) + [inl("-1 ? :config")]
-            if i % 12 == 2 or i % 12 == 9:
+            if i % 12 == 2 or i % 12 == 10:
                 # a protocol word the module does not know (a typing slip: the entry is listed, its
                 # service is dropped again) that the next file corrects in place - and nothing else
                 # changes, so only that entry's own hook runs (seeded change C17-10x2 let the entry hook
@@ -2058,10 +2073,14 @@ THEOREMS = {
             "Iauthd.Properties.C10_history", "Iauthd.Properties.start_inv", "Iauthd.Proto.count_eq", "Iauthd.Proto.Fin1.run",
             "Iauthd.Proto.runTrace_sim", "Iauthd.Proto.runTrace_runOps"],
     "C11": ["Iauthd.Properties.C11_first_match", "Iauthd.Properties.C11_no_match", "Iauthd.Properties.C11_criteria",
-            "Iauthd.Properties.C11_class_len", "Iauthd.Addr.mask_spec"],
+            "Iauthd.Properties.C11_class_len", "Iauthd.Addr.mask_spec", "Iauthd.Properties.C11_session_first_match",
+            "Iauthd.Properties.C11_rules_in_name_order", "Iauthd.Properties.C17_rules_session"],
     "C17": ["Iauthd.Properties.C17_delivery", "Iauthd.Properties.C17_rules", "Iauthd.Properties.C17_inherit_same_rules",
             "Iauthd.Properties.C17_timeout", "Iauthd.Properties.C17_services", "Iauthd.Properties.C17_services_fresh",
-            "Iauthd.Properties.C17_rules_fresh", "Iauthd.Properties.C17_config_fresh", "Iauthd.Properties.C17_last_rescan",
+            "Iauthd.Properties.C17_rules_fresh", "Iauthd.Properties.C17_config_fresh", "Iauthd.Properties.C17_services_load", "Iauthd.Properties.C17_services_loads",
+            "Iauthd.Properties.GoodSec_sortSection", "Iauthd.Properties.C17_rules_load", "Iauthd.Properties.C17_rules_history",
+            "Iauthd.Properties.C17_rules_session", "Iauthd.Properties.C17_rules_from_boot", "Iauthd.Proto.runOps_rules",
+            "Iauthd.Proto.sortSection_distinct", "Iauthd.Proto.insertCNode_sorted", "Iauthd.Properties.C17_last_rescan",
             "Iauthd.Properties.C17_no_rescan", "Iauthd.Properties.C17_reload_is_rescan", "Iauthd.Properties.C17_reflects_start",
             "Iauthd.Properties.C17_reflects_reload", "Iauthd.Properties.C17_reloads", "Iauthd.Properties.C17_reloads_fresh",
             "Iauthd.Proto.rescanWalk_last", "Iauthd.Proto.rescanWalk_nil", "Iauthd.Proto.rescanWalk_mem",
@@ -2099,7 +2118,9 @@ def lean_modules(prop):
          "Iauthd.Proto.Render", "Iauthd.Proto.RenderHex", "Iauthd.Proto.RenderLines", "Iauthd.Proto.RenderInv", "Iauthd.Proto.RenderStep",
          "Iauthd.Proto.Sim01", "Iauthd.Properties.C10"] if prop == "C07" else []) + (
         ["Iauthd.Proto.RefInv", "Iauthd.Proto.RefInvH", "Iauthd.Proto.Rel07", "Iauthd.Proto.Keep07", "Iauthd.Proto.Hist07", "Iauthd.Proto.Start07",
-         "Iauthd.Proto.Reload17", "Iauthd.Proto.Reload17b", "Iauthd.Proto.Sim01"] if prop == "C17" else []) + ["Iauthd.Properties." + prop]
+         "Iauthd.Proto.Reload17", "Iauthd.Proto.Reload17b", "Iauthd.Proto.Rules17", "Iauthd.Proto.SortSec", "Iauthd.Proto.Sim01",
+         "Iauthd.Proto.Render", "Iauthd.Proto.RenderHex", "Iauthd.Proto.RenderLines", "Iauthd.Proto.RenderInv", "Iauthd.Proto.RenderStep",
+         "Iauthd.Set.Comparators"] + (["Iauthd.Properties.C17"] if prop == "C11" else []) if prop in ("C17", "C11") else []) + ["Iauthd.Properties." + prop]
 
 
 def checker_cmd(prop):
